@@ -28,6 +28,7 @@ class CachingStreamWrapper(io.IOBase):
         self._raw = raw
         self._cache = io.BytesIO()
         self._markedPosition = 0
+        self._droppedOctets = 0
 
     def peek(self, n):
         result = self.read(n)
@@ -79,11 +80,22 @@ class CachingStreamWrapper(io.IOBase):
         # that we will not return back, and thus it is
         # safe to drop all cached data.
         if self._cache.tell() > io.DEFAULT_BUFFER_SIZE:
+            self._droppedOctets += self._cache.tell()
             self._cache = io.BytesIO(self._cache.read())
             self._markedPosition = 0
 
     def tell(self):
         return self._cache.tell()
+
+    @property
+    def droppedOctets(self):
+        """Number of octets dropped from the cache so far.
+
+        Positions (`tell()`, `markedPosition`) are counted from the
+        beginning of the cache: `tell() + droppedOctets` is the position
+        in the underlying stream.
+        """
+        return self._droppedOctets
 
 
 def asSeekableStream(substrate):
